@@ -206,6 +206,11 @@ class Workspace:
             o += ["...", ""]
             for r in f["rows"]:
                 o.append("\t".join(str(x) for x in r))
+            if f.get("hash_rows"):
+                # after a `# no comment` line a line that starts with `#` is an entry like any other
+                o.append("# no comment")
+                for r in f["hash_rows"]:
+                    o.append("\t".join(str(x) for x in r))
             if f.get("eol") == "crlf":
                 return "\r\n".join(o) + "\r\n"
             if f.get("eol") == "nofinal":
@@ -593,7 +598,9 @@ def base_workspace(rng, big=False, t0=T0):
     w.put("shared/dx.dict.yaml", {"kind": "dict", "name": "dx", "rows": rows(4, sy_a) + [["ok a", "ba", 5]]})
     w.put("shared/da.dict.yaml", {"kind": "dict", "name": "da", "vocab": True, "imports": ["dx"], "rows": rows(nrows, sy_a, 2) + [[HAN[i], s, 50 + i] for i, s in enumerate(sy_a)]
                                   # rows that take their weight from the preset vocabulary: none given, a percentage
-                                  + [[HAN[0] + HAN[1], "a ai"], [HAN[2] + HAN[4] + HAN[3], "an bo ba", "50%"]]})
+                                  + [[HAN[0] + HAN[1], "a ai"], [HAN[2] + HAN[4] + HAN[3], "an bo ba", "50%"]],
+                                  # entries whose text starts with `#`, after the line that switches comments off
+                                  "hash_rows": [["#" + HAN[40], "ba", 33], ["#tag", "bo", 21]]})
     # two packs on one *named* vocabulary (`vocabulary: lexicon`), the one listed first with a filter that lets one of its three
     # encodable phrases in, the second without any: what the first asks of the vocabulary must not stick to the second
     pk_chars = [[HAN[30 + i], sy_a[i], 5] for i in range(5)]
@@ -711,7 +718,7 @@ USER_COPY_VERSIONS = ["1", "1.0", "1.custom.777", "0.9", "2", "1.9", "1.10", "1.
 SHARED_VERSIONS = ["1", "1.10", "1.minimal", "2.0.minimal", "1.0"]
 EXTRA_KINDS = ["gone", "gone", "back", "back", "schema_break", "schema_fix", "list_odd", "eol", "dict_version", "dict_header",
                "shadow_old", "shadow_old", "shadow_default", "unshadow_default", "shared_version", "essay_empty", "badrule",
-               "indirect", "indirect", "indirect", "indirect_custom", "old_mtime"]
+               "indirect", "indirect", "indirect", "indirect_custom", "old_mtime", "hash_row", "override", "override"]
 
 
 def gen_edit(rng, w, extra=False):
@@ -759,6 +766,43 @@ def gen_edit(rng, w, extra=False):
                      "tweaks": [["patch/menu~1page_size", rng.randint(3, 9)]], "common": [["rules/+", [rng.choice(ALGEBRA_POOL)]]]}[name]
             w.put(rel, {"kind": "custom", "patch": patch})
             return "indirect_custom_on %s" % name
+        if k == "hash_row":
+            # an edit confined to the entries that start with `#` (after `# no comment`)
+            name = rng.choice(["da", "da", "dx", "pk2"])
+            rel = dict_rel(name)
+            if not rel:
+                continue
+            f = copy.deepcopy(w.files[rel])
+            hr = [list(r) for r in f.get("hash_rows") or []]
+            if hr and rng.random() < 0.5:
+                i = rng.randrange(len(hr))
+                hr[i][0] = "#" + rng.choice(HAN[40:60])
+            elif hr and rng.random() < 0.3:
+                hr.pop()
+            else:
+                hr.append(["#" + rng.choice(HAN[40:60]), rng.choice(sylls_of("da")), rng.randint(1, 90)])
+            f["hash_rows"] = hr
+            w.put(rel, f)
+            return "hash_row %s" % name
+        if k == "override":
+            # a copy in the user directory starts (stops) shadowing a file of the shared directory: the *name* now resolves elsewhere
+            n = rng.choice(["essay.txt", "lexicon.txt", "common.yaml", "dx.dict.yaml", "kb.yaml"])
+            if "user/" + n in w.files:
+                w.remove("user/" + n)
+                return "override_off %s" % n
+            if "shared/" + n not in w.files:
+                continue
+            f = {x: copy.deepcopy(y) for x, y in w.files["shared/" + n].items() if x not in ("mtime", "skew")}
+            if f["kind"] == "essay":
+                f["rows"] = [[t, (wt * 7) % 499 + 1] for t, wt in f["rows"]][: max(2, len(f["rows"]) - 1)]
+            elif f["kind"] == "config":
+                f["rules"] = f["rules"] + [rng.choice(ALGEBRA_POOL)]
+            elif f["kind"] == "dict":
+                f["rows"] = f["rows"] + [[rng.choice(HAN), rng.choice(SYLL[:10]), rng.randint(1, 99)]]
+            else:
+                f["rows"] = f["rows"] + [["Control+y", "Escape"]]
+            w.put("user/" + n, f)
+            return "override_on %s" % n
         if k == "old_mtime":
             # a file copied in with its old modification time (`cp -p`): older than the last build, only the directory shows it
             sid = rng.choice(["sa", "sb", "sc"])
